@@ -237,8 +237,9 @@ func tilingViolation(src []byte, ts []rtok) (kind, msg string) {
 			if !bytes.Equal(t.Lit, o.textOf(t.S, t.E)) {
 				return "own-text", fmt.Sprintf("text token %d %q does not match source %q", k, t.Lit, src[t.S-1:t.E])
 			}
-		case "ILLEGAL":
 		default:
+			// every other token, the illegal ones included (a single byte, an unterminated string from its quote or an
+			// unterminated comment from its "{{--" to the end of the input)
 			if !bytes.Equal(t.Lit, src[t.S-1:t.E]) {
 				return "own-text", fmt.Sprintf("token %d %s %q does not match source %q", k, t.T, t.Lit, src[t.S-1:t.E])
 			}
@@ -293,7 +294,7 @@ func sameTokens(m []mtok, r []rtok) (bool, string) {
 			return false, fmt.Sprintf("implementation lacks token %d %s", k, m[k].T)
 		}
 		a, b := m[k], r[k]
-		if a.T != b.T || (a.T != "ILLEGAL" && !bytes.Equal(codesToBytes(a.Lit), b.Lit)) || a.SL != b.SL || a.SC != b.SC || a.EL != b.EL || a.EC != b.EC {
+		if a.T != b.T || !bytes.Equal(codesToBytes(a.Lit), b.Lit) || a.SL != b.SL || a.SC != b.SC || a.EL != b.EL || a.EC != b.EC {
 			return false, fmt.Sprintf("token %d: model %s %q (%d:%d)-(%d:%d), implementation %s %q (%d:%d)-(%d:%d)", k,
 				a.T, codesToBytes(a.Lit), a.SL, a.SC, a.EL, a.EC, b.T, b.Lit, b.SL, b.SC, b.EL, b.EC)
 		}
